@@ -101,6 +101,14 @@ class StepWorkerWaiter(Generic[EventType]):
     resolved_event: EventType | None
     # set to true when the waiter has timed out, such that the step raises asyncio.TimeoutError
     timed_out: bool = False
+    # attempt record of the invocation that suspended in the wait. The replay of the
+    # original event continues that invocation rather than starting a fresh one, so
+    # its retry counters and the @catch_error budget of its lineage are kept.
+    attempts: int = 0
+    first_attempt_at: float | None = None
+    last_exception: Exception | None = None
+    last_failed_at: float | None = None
+    recovery_counts: dict[str, int] = dataclasses.field(default_factory=dict)
 
 
 @dataclass()
